@@ -21,17 +21,23 @@ def prep(chk, pid):
 
 def attribute_failures(chk, mode, lines, failures, describe):
     """a harness process died / lost lines: find one line that kills it (bisect) and report it."""
-    for which, lo, hi, rc, tail in failures:
+    import time as _t
+    t_end = _t.time() + 240          # the search for the line is bounded: a tree on which every run takes minutes is reported without it
+    for fi, (which, lo, hi, rc, tail) in enumerate(failures):
         if which == "model":
             chk.violation("model-run-failure", "modelrun failed rc=%s: %s" % (rc, tail[-300:]), dict(stage="model"), True)
             continue
         cand = lines[lo:hi]
-        while len(cand) > 1:
+        if fi >= 2 or _t.time() > t_end:
+            chk.violation("process-abort", "the process running the implementation failed (rc=%s) on a shard of %d inputs (not narrowed down: time budget): %s" % (rc, len(cand), tail[-300:].replace("\n", " | ")),
+                          dict(mode=mode, line=cand[0], rc=rc, output=tail[-2000:]), True)
+            continue
+        while len(cand) > 1 and _t.time() < t_end:
             half = cand[:len(cand) // 2]
-            rc1, o1, _ = vlib.sh(ULIMIT + [os.path.join(vlib.BUILD, "harness"), mode], inp="\n".join(half) + "\n", timeout=300)
+            rc1, o1, _ = vlib.sh(ULIMIT + [os.path.join(vlib.BUILD, "harness"), mode], inp="\n".join(half) + "\n", timeout=90)
             good = rc1 == 0 and len([l for l in o1.splitlines() if l.strip()]) == len(half)
             cand = cand[len(cand) // 2:] if good else half
-        rc1, o1, _ = vlib.sh(ULIMIT + [os.path.join(vlib.BUILD, "harness"), mode], inp=cand[0] + "\n", timeout=300)
+        rc1, o1, _ = vlib.sh(ULIMIT + [os.path.join(vlib.BUILD, "harness"), mode], inp=cand[0] + "\n", timeout=90)
         chk.violation("process-abort", "the process running the implementation aborted (rc=%s) on input %s: %s" %
                       (rc1, describe(cand[0]), o1[-400:].replace("\n", " | ")),
                       dict(mode=mode, line=cand[0], rc=rc1, output=o1[-2000:]))
@@ -66,6 +72,11 @@ def run_c01(tier, seed):
         if af[0] == "ALIAS":
             chk.violation("encoding-overwritten", "the bytes RESPBytes returned for the PREVIOUS value changed when %s was serialized: they were %s, they are now %s "
                           "(an encoding does not stay what it was while other values are encoded)" % (line[:100], af[1][:80], af[2][:80]), dict(tree=line, before_hex=af[1], after_hex=af[2]))
+            continue
+        if af[0] == "MUT":
+            chk.violation("stale-encoding", "%s: %s - expected %s, RESPBytes returned %s" % (line[:100], "serialized a second time" if af[1] == "second-serialization" else
+                          "after its first serialization the value was changed through its public API (first element's payload replaced, one element appended through the Array handle) and serialized again",
+                          af[2][:100], af[3][:100]), dict(tree=line, how=af[1], expected_hex=af[2], got_hex=af[3]))
             continue
         if af[0] in ("P", "ERR"):
             chk.violation("encode-fails", "RESPBytes of %s %s" % (line[:120], "panics" if af[0] == "P" else "returns an error"), dict(tree=line))
@@ -204,7 +215,7 @@ def run_c02(tier, seed):
             kinds[kind] = kinds.get(kind, 0) + 1
             lines.append("%s %s %d" % (",".join(map(str, sizes)), G.hx(data), len(vals) + 2))
             meta.append((vals, data, kind, sizes))
-    impl, model, failures = vlib.run_pair("parse", [], lines)
+    impl, model, failures = vlib.run_pair("parse", [], lines, timeout=300 if tier == "quick" else 1500)
     attribute_failures(chk, "parse", lines, failures, lambda l: l[:200])
     validated = 0
     distinct = set()
@@ -240,9 +251,33 @@ def run_c02(tier, seed):
     for j, i in enumerate(pick):
         lines2.append("%s %s 4" % ("-" if j % 2 else "1,2", G.hx(POISON[j % len(POISON)]))); meta2.append(None)
         lines2.append(lines[i]); meta2.append(meta[i])
+    # the last bytes of the stream arrive TOGETHER with io.EOF (one Read returns n > 0 and io.EOF: io.Reader allows it, crypto/tls does it
+    # when the peer's close_notify is already buffered, iotest.DataErrReader does it): the values are the same
+    lines3, meta3 = [], []
+    for i in small[::max(1, len(small) // (400 if tier == "quick" else 5000))]:
+        vals, data, kind, sizes = meta[i]
+        for sz in (sizes, [len(data)], [max(1, len(data) - 1), 1], [1] * min(len(data), 64) + [max(0, len(data) - 64)]):
+            sz = [x for x in sz if x > 0]
+            if sum(sz) == len(data):
+                lines3.append("e%s %s %d" % (",".join(map(str, sz)), G.hx(data), len(vals) + 2)); meta3.append((vals, data, "eof-with-last-read", sz))
+    impl3, _m3, failures3 = vlib.run_pair("parse", [], lines3, shards=6, model_too=False)
+    attribute_failures(chk, "parse", lines3, failures3, lambda l: l[:200])
+    for (vals, data, kind, sizes), a in zip(meta3, impl3):
+        if a is None:
+            continue
+        exp, off = [], 0
+        for v in vals:
+            off += len(G.encode(v))
+            exp.append("V%d:%s;" % (off, G.tree_text(v)))
+        expect = "".join(exp) + "S"
+        if a != expect:
+            chk.violation("eof-with-data", "stream of %d values (%d bytes) delivered as chunks %s, the LAST read returning its bytes together with io.EOF: parser returned %s, expected %s" %
+                          (len(vals), len(data), sizes[:12], a[:160], expect[:160]), dict(line="e%s %s %d" % (",".join(map(str, sizes)), G.hx(data), len(vals) + 2), impl=a, expected=expect))
+            break
+        validated += 1
     for procs in ("1", None):
         henv = dict(os.environ, GOMAXPROCS=procs) if procs else None
-        impl2, model2, failures2 = vlib.run_pair("parse", [], lines2, shards=6, henv=henv)
+        impl2, model2, failures2 = vlib.run_pair("parse", [], lines2, shards=6, henv=henv, model_too=False)    # (the expected outcome is written out below: monitor only)
         attribute_failures(chk, "parse", lines2, failures2, lambda l: l[:200])
         for j, (mt, a) in enumerate(zip(meta2, impl2)):
             if mt is None or a is None:
@@ -284,7 +319,7 @@ def run_c02(tier, seed):
             data = b"".join(CG.request_bytes(n_, a_) for n_, a_ in reqs)
             ccases.append(dict(line=CL.mkcase([(0, "c%d" % cap), (0, "f" + CL.hx(data)), (0, "e")], default="ms(4f4b)", trace=False),
                                expect=[b"$%d\r\n" % len(a_[0]) + a_[0] + b"\r\n" for _, a_ in reqs], cuts=["every %d bytes" % cap], n=len(data)))
-    cimpl, cmodel, cfail = vlib.run_pair("conn", [], [c["line"] for c in ccases], shards=8)
+    cimpl, cmodel, cfail = vlib.run_pair("conn", [], [c["line"] for c in ccases], shards=8, timeout=240 if tier == "quick" else 900)
     attribute_failures(chk, "conn", [c["line"] for c in ccases], cfail, lambda l: l[:200])
     conn_ok = 0
     for c, a in zip(ccases, cimpl):
@@ -361,6 +396,15 @@ def run_c06(tier, seed):
     for odd in G.ODD_NUMS:
         cases.append(("odd_len", b"$" + odd + b"\r\nabc\r\n"))
         cases.append(("odd_cnt", b"*" + odd + b"\r\n$1\r\na\r\n"))
+    # every byte value as the type byte (RESP3 types, control characters, letters, high bytes) in front of well-formed length /
+    # payload shapes, at top level, as an element and as a command argument: a value or an error, never a panic
+    for tb in range(256):
+        t_ = bytes([tb])
+        for body in (b"0\r\n\r\n", b"2\r\nab\r\n", b"3\r\nabc\r\n", b"4\r\ntxt:\r\n", b"8\r\ntxt:abcd\r\n", b"-1\r\n", b"\r\n", b"1\r\n", b"t\r\n", b"1.5\r\n"):
+            cases.append(("type_byte", t_ + body + b"+OK\r\n"))
+            if tb % 3 == 0 or tb in b"=!_#,%~>|(":
+                cases.append(("type_byte_nested", b"*2\r\n" + t_ + body + b":1\r\n"))
+                cases.append(("type_byte_arg", b"*2\r\n$4\r\nECHO\r\n" + t_ + body))
     # arrays beyond the pre-allocation cap, cut at and around every element boundary near the cap and its doublings
     for n in ((1030, 2050) if tier == "quick" else (1025, 1030, 1500, 2050, 4100)):
         elems = [b"$2\r\ne%d\r\n" % (i % 10) for i in range(n)]
